@@ -480,6 +480,7 @@ class Executor(Engine):
         stb = sth.fork([guard])
         if self.feasible(stb.pc):
             stb = self.assign(node.target, tval, stb, results, node.lineno)
+            stb.env[f'_k{ordn}'] = V(INT, k)   # ghost iteration counter, visible to nested loop invariants
             for st2, o in self.exec_block(node.body, stb):
                 if o is None or o[0] == 'continue':
                     extra2 = bagv(st2)
@@ -521,6 +522,7 @@ class Executor(Engine):
         dec = self.cur.decreases.get(ordn)
         stb = sth2.fork([g])
         if self.feasible(stb.pc):
+            stb.env[f'_k{ordn}'] = V(INT, k)
             d0 = None
             if dec:
                 d0, a = self.spec_eval(dec, self.inv_env(stb, ordn, k, bagv(stb)), old=stb.old,
@@ -590,12 +592,16 @@ class Executor(Engine):
         argnames = [a.arg for a in fnode.args.args]
         if fnode.args.vararg or fnode.args.kwarg or fnode.args.kwonlyargs:
             raise OutOfSubset('*args/**kwargs parameters')
-        missing = [a for a in argnames if a not in c.params and a != 'self']
+        missing = [a for a in argnames if a not in c.params and a != 'self' and a not in c.d.get('specialize', {})]
         if missing:
             raise ContractOutOfDate(f'{qual}: parameters {missing} have no type in the contract')
         env = {}
         pc = []
+        spec_ = c.d.get('specialize', {})
         for a in argnames:
+            if a in spec_:
+                env[a] = self.const_value(spec_[a])   # specialised contract: this parameter is fixed
+                continue
             v, wf = self.fresh_value(a, c.ty(c.params[a]))
             env[a] = v
             pc += wf
